@@ -4,6 +4,11 @@ VERIF_DIR="$(cd "$(dirname "$0")" && pwd)"; export VERIF_DIR
 case "$1" in /*) F="$1";; *) F="$(pwd)/$1";; esac
 . "$VERIF_DIR/build.sh"
 build_plain || exit 2
+if grep -q '"pool": *"keep"' "$F" 2>/dev/null; then
+  build_race_keep || exit 2
+  export GORACE="halt_on_error=1 exitcode=66"
+  exec "$VERIF_DIR/.build/ottosim" replay "$F" --childbin "$VERIF_DIR/.build/ottosim_racekeep"
+fi
 if grep -q '"race": *true' "$F" 2>/dev/null; then
   build_race || exit 2
   export GORACE="halt_on_error=1 exitcode=66"
